@@ -54,6 +54,8 @@ def dp_event(c, seed):
         a[1] = 0.0
     if c.get("negative_member"):
         a[2] = a[2] - 1.7 * rng.random(n).astype(np.float32)          # specimen minus reference: mixed signs, negative total
+    if c.get("faint_member"):
+        a[0] = a[0] * np.float32(1e-10)                                  # a pattern ten orders of magnitude weaker than its neighbours
     kw = {"uniform": dict(sampling="uniform"), "one_sampling": dict(sampling=float(max(d) * Fraction(5, 4))),
           "two_samplings": dict(sampling=(float(d[0] * 2), float(d[1] * Fraction(3, 2)))),
           "gpts_smaller": dict(gpts=(n[0] - 2, n[1] - 3)), "gpts_larger": dict(gpts=(n[0] + 5, n[1] + 2)), "gpts_same": dict(gpts=n)}[c["target"]]
@@ -73,7 +75,10 @@ def dp_event(c, seed):
             tot0 = a.sum((-2, -1))
             tot1 = np.nan_to_num(out, nan=0.0).sum((-2, -1))
             scale = float(np.abs(tot0).max())
-            worst = np.abs(tot0.astype(np.float64) - tot1.astype(np.float64)).reshape(-1) / scale
+            # every pattern against ITS OWN magnitude (the sum of its absolute values; the stack's largest total for an empty pattern)
+            own = np.abs(a).sum((-2, -1)).astype(np.float64)
+            own = np.where(own > 0, own, scale)
+            worst = (np.abs(tot0.astype(np.float64) - tot1.astype(np.float64)) / own).reshape(-1)
             ev["total_ppb"] = [ppb(float(x)) for x in (worst if worst.size <= 6 else np.sort(worst)[-6:])]
             ev["gpts"] = list(out.shape[-2:])
             if c["lazy"]:
@@ -243,7 +248,7 @@ def run(ctx: Ctx):
         # one case per stratum at every seed: dp (target, stack, lazy), image (target, complex, lazy), source (layout, sigma, lazy); then the seeded remainder
         def stratum(c):
             if c["k"] == "dp":
-                return ("dp", c["target"], c.get("stack"), c["lazy"], c.get("negative_member"))
+                return ("dp", c["target"], c.get("stack"), c["lazy"], c.get("negative_member"), c.get("faint_member"))
             if c["k"] == "image":
                 return ("image", c["target"], c.get("complex"), c["lazy"])
             return ("source", c.get("layout"), c.get("sigma"), c["lazy"])
